@@ -139,7 +139,8 @@ def run(chk: harness.Check):
         "SourceReport::{error,warn,push}, an event queue, or the function's return value; (D3) the Stage constant matches the module and error/warn sinks "
         "receive matching severities; (D4) in RecipeCollector::parse_events the Event::Error arm calls SourceReport::retain with a Stage::Parse predicate and "
         "returns PassResult::new(None, ..), every other PassResult::new carries Some(content); (D5) PassResult::is_valid is has_output() ∧ ¬has_errors(); "
-        "(D6) every Number::Fraction built in the parser takes its denominator from frac() or under the `== 0` rejection. Weak: which condition triggers a "
+        "(D6) every Number::Fraction built in the parser takes its denominator from frac() or under the `== 0` rejection; (D7) the out-of-range diagnostic of an intermediate reference is guarded by the "
+        "n-th element of the is_step-filtered enumeration of the current section / a comparison with content.sections.len() (shared with C06.D6). Weak: which condition triggers a "
         "diagnostic and where its labels point are not decided.")
     chk.trusted = ["rustc MIR", "tables/diagnostics.toml (reviewed catalogue; message texts are listed for the reader and never compared)"]
     cons = constructions(F)
@@ -174,6 +175,10 @@ def run(chk: harness.Check):
     d4_short_circuit(chk, F)
     d5_validity(chk, F)
     d6_zero_den(chk, F)
+    # D7: the out-of-range test of an intermediate reference is the emptiness of the same bounded lookup C06.D6 pins
+    # (n-th STEP of the current section / comparison with content.sections.len()): counting anything else moves the range
+    import c06
+    c06.d6_intermediate(chk, F, rule="C07.D7-intermediate-range")
 
 
 DROPPERS = ("Result::<T, E>::ok", "Result::<T, E>::unwrap_or", "Result::<T, E>::unwrap_or_default", "Result::<T, E>::unwrap_or_else", "Result::<T, E>::is_ok",
